@@ -6,6 +6,7 @@ from lib import pyvals as pv
 from lib.gallina import gstr, glist, gopt
 
 ID = "C11"
+LOG_LEVEL_INVARIANT = True      # (harness/vp.py: a sample of the cases again with logging at DEBUG; same observables)
 RUN_MODULE = "RunC11"
 DRIVER = "heap_driver.py"
 SHARD = 60
